@@ -4,4 +4,6 @@ package main
 // `MakeTreeFromList` uses since the repair of round 7 — pinned with "+full".
 func init() {
 	targets["tree.go"] = append(targets["tree.go"], "Roster.searchByKey+full")
+	// the store's test-and-set that handleSendTree and checkPendingTreeMarshal use since the second repair of round 7
+	targets["treestorage.go"] = append(targets["treestorage.go"], "treeStorage.setIfMissing+full")
 }
